@@ -117,8 +117,14 @@ def group_sources(name):
 def _compile_one(args):
     src, obj, flags = args
     os.makedirs(os.path.dirname(obj), exist_ok=True)
-    cmd = ['ccache', 'g++'] + flags + ['-c', src, '-o', obj]
+    # compile to a private name and rename: several checks may build the same object concurrently
+    tmp = '%s.%d.tmp.o' % (obj, os.getpid())
+    cmd = ['ccache', 'g++'] + flags + ['-c', src, '-o', tmp]
     p = subprocess.run(cmd, stdout=subprocess.PIPE, stderr=subprocess.PIPE)
+    if p.returncode == 0:
+        os.replace(tmp, obj)
+    elif os.path.exists(tmp):
+        os.unlink(tmp)
     return src, p.returncode, p.stderr.decode(errors='replace')
 
 
